@@ -47,6 +47,39 @@ CHECKS = {
        "of large shards, all 255 deltas; shards hashed before/after.",
   note=TB + " Matrix codec only in this check; Leopard and stream Verify are exercised in C04/C14.",
   design="4/C06"),
+ "C07": dict(
+  technique="Lean 4 theorems: the range splitting is a partition for all option values; four builds x option matrix x GOMAXPROCS vs one L0 answer",
+  text="Proof: C07_allPieces_chain / C07_chain_partition / C07_evalPieces / C07_options - for every byte count and every value of "
+       "maxGoroutines, minSplitSize, perRound and kernel granularity (or no kernel), the modelled worker ranges, kernel prefix and "
+       "scalar rounds cover [0,n) exactly once, worker ranges are pairwise disjoint (any schedule of the internal workers gives the "
+       "same bytes), and piecewise evaluation of a column-local function equals whole evaluation; hence any two option records "
+       "agree. Tie: one op file (Encode/Verify/Reconstruct/EncodeIdx/Update, sizes around every threshold, tails 0..63) through "
+       "the default, noasm, nopshufb and nounsafe builds under GOMAXPROCS 1/2/16 with a 24-row option matrix, all compared "
+       "with the single option-free L0 answer.",
+  note=TB + " cpuid detection and the option->path mapping are exercised, not modelled; kernels meet their contract by C08; the "
+       "nogen tag does not compile on amd64 at the pinned commit.",
+  design="4/C07"),
+ "C08": dict(
+  technique="Lean 4 kernel evaluation of the per-lane recipes on regenerated tables + lane-exhaustive execution of every assembly kernel",
+  text="Proof: C08_nibble (PSHUFB recipe low[c][x&15]^high[c][x>>4] = c*x) and C08_affine (GF2P8AFFINEQB with the regenerated bit "
+       "matrix = c*x) for all 65,536 pairs, C08_count, slot layout. Execution tie (this is where the assembly enters): all 600 "
+       "generated kernels run lane-exhaustively (every slot x 256 coefficients x every byte value at every residue mod 64) and on "
+       "random matrices/lengths/start offsets/misaligned buffers with 128-byte guard zones; returned count, untouched bytes outside "
+       "[start,start+n), unchanged inputs; hand-written multiply/xor kernels under every instruction-set switch for all 256 "
+       "coefficients; Leopard GF8/GF16 butterfly/multiply kernels; the nopshufb kernel set. Expected bytes from a first-principles product.",
+  note=TB + " PARTIAL: the assembly is tied by execution, not proved - complete over (coefficient, byte, lane) per slot, sound "
+       "if kernels are data-oblivious and lane-uniform (an assumption). Only this CPU's instruction sets (SSE2..AVX512, GFNI) run.",
+  design="4/C08"),
+ "C09": dict(
+  technique="Lean 4 theorems on write-set classes and AllocAligned arithmetic + sentinel-arena diff against the model's write set",
+  text="Proof: C09_alloc / C09_alloc_aligned (all shard counts, sizes and all 64 base alignments: requested length, inside the "
+       "allocation, pairwise disjoint incl. capacities, 64-aligned), C09_recon_only_missing / C09_recon_in_place_iff / "
+       "C09_recon_matches_spec / C09_recon_matches_model (only missing shards are written, in place iff capacity suffices, class u "
+       "iff the functional result leaves the shard as it was), Encode/Verify/EncodeIdx/Update frames. Tie: every shard set laid out "
+       "as sub-slices of one sentinel arena with random gaps and spare capacity; after each call every byte outside the model's "
+       "write set must be unchanged and each shard's class u/w/a must equal the model's; AllocAligned post-conditions on real pointers.",
+  note=TB + " Byte-level 'only inside [0,len)' is carried by the arena diff; kernel-level stores by C08's guard zones.",
+  design="4/C09"),
  "C10": dict(
   technique="Lean 4 invariant proof over all call histories (cache soundness of the inversion trie) + fresh-vs-long-lived correspondence",
   text="Proof: C10_matrix / C10_fresh / C10_history_independent - for every finite history of Reconstruct/ReconstructData/"
@@ -90,6 +123,37 @@ CHECKS = {
        "pre-filled with 0xA5, aliasing count, Encode accepts the result; Join with truncations, nil patterns, all outSize classes.",
   note=TB + " Found and fixed: Join with a negative outSize panicked (fix 33b1873).",
   design="4/C13"),
+ "C14": dict(
+  technique="Lean 4 induction over the block loop of a stream state machine with an abstract column-local block codec",
+  text="Proof: C14_encode / C14_verify / C14_reconstruct - for every stream length L>=1, block size B>=1, sequential or concurrent "
+       "writes, and every block codec that is column-local, each parity/fill writer receives exactly what the in-memory call "
+       "computes on the whole streams; C14_readFull_clean (no fragmentation parameter exists in the model: ReadFull abstracts it); "
+       "C14_split / C14_split_join. Tie: the real StreamEncoder with seeded fragmenting readers (1 byte..full, 0-byte reads, n>0 "
+       "with EOF) vs the model instantiated with the GF(2^8) codec: block sizes x lengths around block boundaries x shapes x all "
+       "valid/fill assignments of small configurations x sequential/concurrent I/O.",
+  note=TB + " io.ReadFull/io.CopyN/io.MultiReader re-modelled from their documented contract; column-locality of the real codec is C03.",
+  design="4/C14"),
+ "C15": dict(
+  technique="Lean 4 theorems on the stream state machine with faulty readers/writers + every (stream, offset, kind) fault on small streams",
+  text="Proof: C15_unequal / C15_unequal_verify (success implies all stream lengths equal - wherever the shorter stream ends, incl. "
+       "on a block boundary), C15_read_error(_any), C15_write_error_seq/conc, C15_short_write, C15_split_short / "
+       "C15_split_surplus, C15_join_* . Tie: every (stream index, byte offset, fault kind in read error / early EOF / surplus / "
+       "write error / short write) for Encode, Verify, Reconstruct, Split, Join, sequential and concurrent, compared with the "
+       "model incl. the bytes each writer received; independent property-level check that no injected fault is accepted.",
+  note=TB + " KNOWN FINDING (known_findings.json): stream Split/Join return the reader's/writer's error unwrapped, not a "
+       "StreamReadError/StreamWriteError naming the stream. Not proved: fault propagation through later iterations of Reconstruct.",
+  design="4/C15"),
+ "C16": dict(
+  technique="Lean 4 totality proofs over an API model with explicit bounds-checked indexing (panic outcome) + grammar-based call correspondence",
+  text="Proof: C16_*_total - no argument tuple (any shard count, nil/empty/unequal shards, any index, masks of any length or nil, "
+       "any integer outSize) reaches the panic outcome of any method model; C16_new_total_int / C16_new_usable - for ALL integers "
+       "(d,p) with 64-bit wrap and every option New returns an error or an encoder satisfying `usable` (Leopard FFT indices inside "
+       "the field); documented error per malformed shape. Tie: ~9,800 grammar-generated calls of every exported method and "
+       "New/NewStream over the whole int range; outcome classes ok/err/panic must agree; 20 s watchdog + goroutine-leak check; "
+       "every accepted encoder must Encode, Verify and Reconstruct.",
+  note=TB + " Hangs and goroutine leaks are measured, not proved. Found and fixed through this check: Join(-1), AllocAligned(-1), "
+       "custom matrix with extra rows, shard-count overflow with a custom matrix.",
+  design="4/C16"),
  "C17": dict(
   technique="Lean 4 kernel evaluation (decide +kernel) of regenerated table literals against shift-and-reduce arithmetic",
   text="Proof: every entry of the seven static GF(2^8) tables regenerated from galois.go on every run (65,536 products, log/exp/inv, "
@@ -130,7 +194,7 @@ def main():
             "guard": "verif",
             "enable": "go build -tags verif (the harness in /verif/harness imports /repo through a replace directive)",
             "baseline_off_cmd": "cd /repo && GOFLAGS=-mod=mod go test -json -vet=off -count=1 -timeout 25m ./...",
-            "source_commits": ["45e309d"],
+            "source_commits": ["45e309d", "4628913"],
             "add_only": True,
         },
         "engines": [
